@@ -27,6 +27,11 @@
 //   I packQ|packU s k r n nf free… all[n] packedIn[nf] base[n] / O … packed[nf] unpacked[n]   packFreeQ/unpackFreeQ (U)
 //   I minnorm s k r which m n nf free… A[m*n] tp[m] winv[n] b[m]  / T 1e-8 1e-10 / O minnorm x[n]
 //       x = correction actually applied (q_before - q_after, resp. u); model: Wu^-1 (Tp A Wu^-1)^+ Tp b on free columns
+//   I projQt s k r flags acc overshoot limit sig mHolo mQuats Tp[mHolo] nEv {event iter n vals[n]}…  / O projQt <as projQ>
+//   I projUt s k r flags acc overshoot limit sig m Tpv[m] nEv {event iter n vals[n]}…               / O projUt <as projU>
+//       ONLY when the library exports the per-iteration hook `SimTK_verif_projectTrace` (notes/C09_hook.patch; looked
+//       up with dlsym at start-up, absent on the current tree): the error vectors seen by every decision of
+//       projectQ/projectU are replayed through the FULL skeleton `runQ`/`runU`, which must predict every result field.
 // Implementation-only records  I chk <what> s k r / O chk 1  carry P lines only.
 //
 // Predicates (P lines; the property's own clauses evaluated on the implementation's outputs):
@@ -43,6 +48,7 @@
 #include "ceq_tree.h"
 #include <set>
 #include <map>
+#include <dlfcn.h>
 using namespace SimTK;
 using namespace ceq;
 using vh::hex;
@@ -86,14 +92,25 @@ Outcome fill(const ProjectResults& r, bool threw) {
     }
     return o;
 }
+// optional per-iteration hook (notes/C09_hook.patch): `extern "C" void (*SimTK_verif_projectTrace)(which,event,iter,errs,n)`
+typedef void (*TraceFn)(int, int, int, const double*, int);
+TraceFn* g_traceVar = nullptr;
+struct TraceEv { int which, event, iter; std::vector<double> v; };
+std::vector<TraceEv> g_trace;
+void collectTrace(int which, int event, int iter, const double* e, int n) { g_trace.push_back({which, event, iter, std::vector<double>(e, e + n)}); }
+
 Outcome callQ(const MultibodySystem& sys, State& s, const ProjectOptions& o) {
     ProjectResults r; Vector none; bool threw = false;
+    g_trace.clear(); if (g_traceVar) *g_traceVar = collectTrace;
     try { sys.projectQ(s, none, o, r); } catch (const std::exception&) { threw = true; }
+    if (g_traceVar) *g_traceVar = nullptr;
     return fill(r, threw);
 }
 Outcome callU(const MultibodySystem& sys, State& s, const ProjectOptions& o) {
     ProjectResults r; Vector none; bool threw = false;
+    g_trace.clear(); if (g_traceVar) *g_traceVar = collectTrace;
     try { sys.projectU(s, none, o, r); } catch (const std::exception&) { threw = true; }
+    if (g_traceVar) *g_traceVar = nullptr;
     return fill(r, threw);
 }
 
@@ -117,6 +134,9 @@ void putOutcome(vh::Line& L, const Outcome& r, bool withNormIn) {
     if (withNormIn) L.d(r.normIn).i(r.worst);
     L.i(r.status).i(r.its).i(r.anyChange).i(r.limEx).i(r.threw);
 }
+
+struct Ctx;
+void traceRecord(Ctx& c, const char* fn, int which, const ProjectOptions& o, const std::vector<int>& dims, const Vector& w, int nw, const Outcome& r);
 
 struct QuatInfo { std::vector<int> firstQ; };   // first q index of every mobilizer currently using a quaternion
 QuatInfo quatsOf(const Model& M, const State& s) {
@@ -144,6 +164,18 @@ int bitDiffs(const Vector& a, const Vector& b) {
     if (a.size() != b.size()) return 1 << 20;
     int n = 0; for (int i = 0; i < a.size(); ++i) if (hex(a[i]) != hex(b[i])) ++n;
     return n;
+}
+
+void traceRecord(Ctx& c, const char* fn, int which, const ProjectOptions& o, const std::vector<int>& dims, const Vector& w, int nw, const Outcome& r) {
+    if (!g_traceVar) return;
+    vh::Line L = c.I(fn); putOpts(L, o); for (int d : dims) L.i(d);
+    for (int i = 0; i < nw; ++i) L.d(w[i]);
+    int nEv = 0; for (auto& e : g_trace) if (e.which == which) ++nEv;
+    L.i(nEv);
+    for (auto& e : g_trace) if (e.which == which) { L.i(e.event).i(e.iter).i((long long)e.v.size()); for (double x : e.v) L.d(x); }
+    L.emit();
+    vh::Line O = vh::O(fn); putOutcome(O, r, true); O.d(r.normOut); O.emit();
+    vh::D(std::string(fn) + ".traced");
 }
 
 // --------------------------------------------------------------------------- projectQ record
@@ -205,6 +237,7 @@ Outcome doProjectQ(Ctx& c, Model& M, State& s, const ProjectOptions& o, const st
             vh::D("projQ.satisfiedUnforced");
         }
     }
+    traceRecord(c, "projQt", 0, o, {mHolo, mQuats}, Tp, mHolo, r);
     return r;
 }
 
@@ -252,6 +285,7 @@ Outcome doProjectU(Ctx& c, Model& M, State& s, const ProjectOptions& o, const st
             vh::D("projU.satisfiedUnforced");
         }
     }
+    traceRecord(c, "projUt", 1, o, {m}, Tpv, m, r);
     return r;
 }
 
@@ -569,6 +603,7 @@ void oneCase(uint64_t seed, long k) {
 
 int main(int argc, char** argv) {
     vh::Args a(argc, argv);
+    g_traceVar = (TraceFn*)dlsym(RTLD_DEFAULT, "SimTK_verif_projectTrace");   // null on a tree without the hook
     if (a.mode == "replay") {
         std::set<std::pair<unsigned long long, long>> cases; char buf[1 << 16];
         while (std::fgets(buf, sizeof buf, stdin)) {
